@@ -888,7 +888,7 @@ func c37Session(r *verifkit.Run, env *c37Env, si int) {
 			}
 			if len(o.Bad) > 0 {
 				cls := c37Class(q.Text, o.Bad)
-				if qi > 0 {
+				if qi > 0 && cls != "catalog_query_discloses_unauthorized_topics" {
 					// is it the session's history (decision cache)? the identical text, alone in a new session
 					cf, problem := env.session(acl, 0, []c37Query{{Text: q.Text, Shape: "counterfactual"}})
 					if problem != "" || len(cf) != 1 {
